@@ -885,6 +885,10 @@ int64_t ExpressionEvaluator::evaluate_function_call_impl(const ASTNode *node) {
     std::string
         type_name; // メソッド呼び出しの構造体型名（ジェネリックキャッシュに使用）
     MethodReceiverResolution receiver_resolution;
+    // レシーバーを const として見ている呼び出し: const T* 経由
+    // (cp->m(), getcp()->m())、または const 変数のメンバー・要素
+    // (ps[0].m(), a.in.m())。このとき self は const になる
+    bool receiver_is_const_view = false;
     bool impl_context_active = false; // implコンテキストが有効かどうか
     struct MethodCallContext {
         bool uses_temp_receiver = false;
@@ -1138,8 +1142,42 @@ int64_t ExpressionEvaluator::evaluate_function_call_impl(const ASTNode *node) {
             return std::string();
         };
 
+        // ps[0].m() / a.in.m(): メンバー・要素アクセスだけで辿れる
+        // ルート変数が const なら、レシーバーも const オブジェクトの一部
+        // （ポインタメンバー h.mp->m() の指し先は h の一部ではない）
+        if (receiver_var->type != TYPE_POINTER) {
+            const ASTNode *root = node->left.get();
+            while (root &&
+                   (root->node_type == ASTNodeType::AST_MEMBER_ACCESS ||
+                    root->node_type == ASTNodeType::AST_ARRAY_REF)) {
+                root = root->left.get();
+            }
+            if (root && root != node->left.get() &&
+                (root->node_type == ASTNodeType::AST_VARIABLE ||
+                 root->node_type == ASTNodeType::AST_IDENTIFIER)) {
+                Variable *root_var = interpreter_.find_variable(root->name);
+                if (root_var && root_var->is_const &&
+                    root_var->type != TYPE_POINTER) {
+                    receiver_is_const_view = true;
+                }
+            }
+        }
+
         // Check if receiver is a pointer type
         if (receiver_var->type == TYPE_POINTER) {
+            // const T* 経由のメソッド呼び出しは指し先を変更できない
+            // （cp->x = v と同じ規則）。(*cp).m() は cp->m() と同じ
+            const ASTNode *pointer_expr = node->left.get();
+            if (pointer_expr->node_type == ASTNodeType::AST_UNARY_OP &&
+                pointer_expr->op == "DEREFERENCE" && pointer_expr->left) {
+                pointer_expr = pointer_expr->left.get();
+            }
+            if (receiver_var->is_pointee_const ||
+                AssignmentHelpers::is_pointer_to_const_expression(
+                    interpreter_, pointer_expr)) {
+                receiver_is_const_view = true;
+            }
+
             // Dereference the pointer to get the actual struct
             int64_t ptr_value = receiver_var->value;
             if (ptr_value == 0) {
@@ -4545,6 +4583,11 @@ int64_t ExpressionEvaluator::evaluate_function_call_impl(const ASTNode *node) {
 
         // Ensure self has correct type info after copy
         Variable &self_var = current_scope.variables["self"];
+        // self は const レシーバーのコピーなら const（is_const もコピーされる）。
+        // const T* 経由・const 変数のメンバー/要素の場合も const にする
+        if (receiver_is_const_view) {
+            self_var.is_const = true;
+        }
         if (debug_mode) {
             debug_msg(DebugMsgId::METHOD_SELF_SETUP_START,
                       "self.type and is_struct check");
